@@ -126,14 +126,12 @@ func (bs *baseServer) Init() {
 func (bs *baseServer) ComputePath(options config.AttachOptionsInterface) string {
 	path := "/engine.io"
 
-	if options != nil {
-		if options.GetRawPath() != nil {
-			path = strings.TrimRight(options.Path(), "/")
-		}
-		if options.GetRawAddTrailingSlash() == nil || options.AddTrailingSlash() {
-			// normalize path
-			path += "/"
-		}
+	if options != nil && options.GetRawPath() != nil {
+		path = strings.TrimRight(options.Path(), "/")
+	}
+	if options == nil || options.GetRawAddTrailingSlash() == nil || options.AddTrailingSlash() {
+		// normalize path
+		path += "/"
 	}
 
 	return path
